@@ -514,6 +514,13 @@ func (cr *caseRun) playForeign() []string {
 				want["nodePool"] = "<absent>"
 			case "status":
 				statusWanted = true
+			case "annotation":
+				// what the scheduler's status updater writes on the PodGroup
+				if pg.Annotations == nil {
+					pg.Annotations = map[string]string{}
+				}
+				pg.Annotations["kai.scheduler/last-start-timestamp"] = "2026-01-01T00:00:00Z"
+				want["annotation"] = "2026-01-01T00:00:00Z"
 			}
 		}
 		if err := w.raw.Update(w.ctx, pg); err != nil {
@@ -580,6 +587,24 @@ func (cr *caseRun) playForeign() []string {
 	}
 	sb, _ := json.Marshal(got.Status)
 	have["status"] = string(sb)
+	have["annotation"] = got.Annotations["kai.scheduler/last-start-timestamp"]
+	// write-free fixpoint after the foreign update: one more pass over all pods must not write the PodGroup again
+	if len(ferrs) == 0 {
+		extra := 0
+		for _, i := range sc.Orders[0] {
+			for _, c := range cr.doReconcile(w, i, ferrs) {
+				if c.Kind == "PodGroup" && c.Name == target.Name && (c.Verb == "update" || c.Verb == "patch") {
+					extra++
+				}
+			}
+		}
+		cr.inc("foreign_fixpoint_passes", 1)
+		if extra > 0 {
+			cr.viol("foreign-fields", "writes-after-foreign-update:"+strings.Join(sc.Foreign.Fields, "+")+":"+sc.Kind,
+				"%s (%s): after a foreign actor changed %v on PodGroup %s and every pod was reconciled again, one more pass still wrote the PodGroup %d times (no write-free fixpoint). log: %v",
+				sc.Kind, sc.Detail, sc.Foreign.Fields, target.Name, extra, logs)
+		}
+	}
 	var fs []string
 	for f := range want {
 		fs = append(fs, f)
